@@ -7,7 +7,7 @@ from linalg import *
 PID = "C01"
 IMPORTS = "From OV Require Import Model.Vector Model.Matrix Model.MatOps Model.Solve."
 MODEL_VO = ["Model/Solve.vo"]
-RULE = ("square systems n=1..8: dense, zero/tiny leading pivots at several steps, permutation-like, triangular, several exchanges; "
+RULE = ("square systems n=1..8: dense, zero/tiny leading pivots at several steps, permutation-like, triangular, several exchanges, badly row-scaled, Wilkinson growth matrices; "
         "Rat (exact, vs Qc model), f64 and Complex<f64> (vs primitive-float model, scaled 1e-6..1e6); both solvers per system; "
         "distinct = distinct executor line; non-trivial = n >= 2 and nonsingular")
 TRUSTED = ["Coq 8.16.1 kernel + vm_compute", "Rust executor /verif/harness (Rat = i128 rationals)", "python driver (generators, Fraction residual oracle, comparators)",
@@ -71,6 +71,16 @@ def gen_matrix(rng, n, fam, elt):
             if rng.chance(1, 2): A[k*n+k] = 1e-20 * (1 if rng.chance(1, 2) else -1)
     elif fam == "neg-dominant":
         for k in range(n): A[k*n+k] = -one * rng.range(5, 9)
+    elif fam == "row-scaled":   # floats only: rows of wildly different magnitude (partial pivoting without row scaling)
+        for i in range(n):
+            s = 10.0 ** rng.range(-6, 6)
+            for j in range(n): A[i*n+j] = A[i*n+j] * s
+    elif fam == "wilkinson":    # worst-case element growth 2^(n-1) of partial pivoting
+        A = [0 * one for _ in range(n * n)]
+        for i in range(n):
+            for j in range(i): A[i*n+j] = -one
+            A[i*n+i] = one
+            A[i*n+n-1] = one
     return A
 
 def pivot_trace(A, n):
@@ -138,7 +148,7 @@ def generate(rng, tier):
     N = 80 if tier == "quick" else 600
     fams_r = ["dense", "zero-lead", "perm", "upper", "lower", "neg-dominant"]
     g = rng.fork("rat")
-    for fam in fams_r:
+    for fam in fams_r + ["wilkinson"]:
         for t in range(N):
             n = 1 + (t % 8)
             for _ in range(20):
@@ -148,7 +158,7 @@ def generate(rng, tier):
             cases.append(mk('rat', n, A, b, "rat-" + fam, n >= 2 and nonsingular(A, n)))
     g = rng.fork("flt")
     for elt in ('f64', 'cplx'):
-        for fam in fams_r + ["tiny-pivot"]:
+        for fam in fams_r + ["tiny-pivot", "row-scaled", "wilkinson"]:
             for t in range(max(4, N // 3)):
                 n = 1 + (t % 8)
                 for _ in range(20):
